@@ -39,7 +39,7 @@ CLAIMED = {
     "C09": ("4 C09", "abstract interpretation of the six sibling step-cost functions into cost signatures compared with "
             "the objectives' definitions and with the name dispatch; CFG/guard analysis of the DP (memo overwrite "
             "guard and tuple layout, sieve skip, early exits, outer-product flag); partial evaluation of the "
-            "bipartition range expressions; must-pass-through of the cap widening; option integrity (no re-binding of the objective / outer-product option, unchanged hand-over to delegates); provenance of the batch-index test (carriers vs appearance table); integrity of the network handed to the processor"),
+            "bipartition range expressions; must-pass-through of the cap widening; option integrity (no re-binding of the objective / outer-product option, unchanged hand-over to delegates); provenance of the batch-index test (carriers vs appearance table); integrity of the network handed to the processor; evaluation of the step-cost functions over a bounded family against the objectives' definitions (shared with C18, DESIGN E9)"),
     "C10": ("4 C10", "typestate of the depth-first traversal's ready set and guard of its yield; sibling cross-check of the "
             "recycled-id protocol (descending removal, positions before removal, append) over every pop/append loop; "
             "CFG pairing of single-assignment id counters with their uses; linear-form check of get_ssa_path's id"
@@ -70,7 +70,7 @@ CLAIMED = {
             "flow-sensitive hash-ordered iteration classification; per-class collection of tables keyed by label sets and consumer classification inside the ranking functions applied to their items"),
     "C18": ("4 C18", "sibling cross-check of the index-survival predicates and appearance tables of the cost simulators; "
             "uncompensated index drop reachability"
-            "; symbolic case analysis (index on left / right / both) of the annealing move evaluator against the survival rule; freshness of the sub-optimizer behind stored scores (shared with C16)"),
+            "; symbolic case analysis (index on left / right / both) of the annealing move evaluator against the survival rule; freshness of the sub-optimizer behind stored scores (shared with C16); evaluation of the processor's pure leg-arithmetic functions over a bounded family of term pairs against the survival rule and cost definitions (DESIGN E9)"),
     "C19": ("4 C19", "every per-slice combination site uses the exponent-aware adder; normalise/accumulate pairing; "
             "rescale-before-stack dominance and form; scale measure and zero sentinel; option reaches every expression branch"
             "; guard of the zero early-out; may-alias taint of in-place writes in the executor; sibling agreement in kind (array vs bare number) of the executor's stripped returns against the stacking consumer"),
